@@ -5,7 +5,7 @@ import PbVerif.Model.DefVal
 Strings are hex (`-` = empty).  Values: `b:0|1  i32:<dec>  i64:<dec>  u32:<dec>  u64:<dec>  f32:<8 hex>|nan
 f64:<16 hex>|nan  s:<hex>  y:<hex>  e:<dec>`.  An enum value is `<namehex>:<dec>`, a list of them is comma-separated,
 `_` stands for "none"/"empty list".  The float codec is supplied per request by the harness (the text that
-strconv.FormatFloat produced, the bits that strconv.ParseFloat produced, `_` = error/not applicable): the model
+strconv.FormatFloat produced, the bits that strconv.ParseFloat(s, 64) and ParseFloat(s, 32) produced, `_` = error/not applicable): the model
 contributes the control flow around it (special tokens, widening, narrowing). -/
 open Driver Model.DefVal
 
@@ -76,7 +76,7 @@ def optEvOf (s : String) : Option (Option EnumValue) :=
   if s == "_" then some none else (evOf s).map some
 
 /-- codec from the strconv results that the harness supplies with the request -/
-def codec (fmt : List Model.DefVal.Byte) (p64 : Option (BitVec 64)) (p32 : Option (BitVec 32)) : FloatCodec :=
+def codec (fmt : List Model.DefVal.Byte) (p64 : Option (BitVec 64)) (p32 : BitVec 64) : FloatCodec :=
   { format32 := fun _ => fmt, format64 := fun _ => fmt, parse64 := fun _ => p64, parse32 := fun _ => p32 }
 
 def optBits (w : Nat) (s : String) : Option (Option (BitVec w)) :=
@@ -114,18 +114,15 @@ def step : List String → String
   | ["marshal", f, k, v, ev, fmt] =>
     match formatOf f, kindOf k, valueOf v, optEvOf ev, bytesOfHex fmt with
     | some f, some k, some v, some ev, some fmt =>
-      (match marshal (codec fmt none none) v ev k f with
+      (match marshal (codec fmt none 0#64) v ev k f with
        | some s => "ok " ++ hexOfBytes s
        | none => "err")
     | _, _, _, _, _ => "bad-op"
-  | ["unmarshal", f, k, h, evs, p64] =>
-    match formatOf f, kindOf k, bytesOfHex h, evsOf evs, optBits 64 p64 with
-    | some f, some k, some s, some evs, some p64 => showRes (unmarshal (codec [] p64 none) s k evs f)
-    | _, _, _, _, _ => "bad-op"
-  | ["unmarshalFixed", f, k, h, evs, p64, p32] =>
-    match formatOf f, kindOf k, bytesOfHex h, evsOf evs, optBits 64 p64, optBits 32 p32 with
+  | ["unmarshal", f, k, h, evs, p64, p32] =>
+    -- p32: the float64 bits that `v, _ = ParseFloat(s, 32)` leaves; `_` (= not a float kind / not reached) is 0
+    match formatOf f, kindOf k, bytesOfHex h, evsOf evs, optBits 64 p64, optBits 64 p32 with
     | some f, some k, some s, some evs, some p64, some p32 =>
-      showRes (unmarshalFixed (codec [] p64 p32) s k evs f)
+      showRes (unmarshal (codec [] p64 (p32.getD 0#64)) s k evs f)
     | _, _, _, _, _, _ => "bad-op"
   | _ => "bad-op"
 
